@@ -696,6 +696,9 @@ def gen_update_case(r, profile='default', rounds=None):
     sort = r.random() < 0.5
     wm = r.choice([None, None, 0, 60, 200, 100000])
     fmt = r.choice([None, None, 'gz', 'bz2', 'xz', 'lzma'])
+    if t.link_paths():
+        # a Manifest reachable under two names (finding D20): recompression through one of them is not compared
+        wm = None
     c.opts = (hashes, sort, wm, fmt, profile, None, None, False)
     upath = r.choice([''] * 3 + [d for d in c.meta['dirs'] if d and not d.startswith('.') and '/.' not in d])
     ops = [['update', upath, [], []],
